@@ -122,6 +122,11 @@ def specs(tier='quick'):
          lambda m: m.result(), RET,
          per_row=lambda r, n: [tuple(tuple(r[k][j]) for k in sorted(r)) for j in range(n)],
          note='row i has 1 + (i mod 3) predictions (ragged rankings)'))
+  A(Spec('ThresholdedRetrieval', lambda: ret.ThresholdedRetrieval(thresholds=(0.25, 0.75)),
+         lambda c, i: (lambda mt, mp: (mt, mp, mp))(c.real(f'mt{i}', lo=0, hi=1), c.real(f'mp{i}', lo=0, hi=1)),
+         lambda m: tuple(tuple(np.asarray(v).tolist()) for k, v in m.result().items() if k != 'thresholds'), RET,
+         batch=lambda rows: (None, None, [[r[2]] for r in rows], [[r[0]] for r in rows], [[r[1]] for r in rows]),
+         note='matched probabilities are given directly (the matcher is skipped); one candidate per row, y_prob = matched_pred_prob'))
   # ---- text frequency metrics: words are chosen by symbolic ints (concretised per path); structure only -------------
   from ml_metrics._src.aggregates import text as agg_text
   TXT = ('aggregates.text', 'aggregates.utils', 'utils.math_utils')
